@@ -78,6 +78,7 @@ struct Opts {
   bool shift_x86 = false;    // scalar shifts by >= width: x86 masking instead of nondet
   bool nsw_asserts = false;  // assert absence of signed overflow on nsw/nuw
   bool loops_as_while = false; // emit natural loops as while(1){} with LOOP_CONTRACT_<fn>_<n> hook
+  bool cut_after_loops = false; // blocks from which no loop can be reached any more return at once (termination proofs only)
   std::set<std::string> noinline; // never inline these (besides keep)
 };
 
